@@ -86,6 +86,30 @@ def gen_synth(rnd, d=0):
     return out
 
 
+def gen_xpl(rnd):
+    """a huawei xpl route-filter with one to three if-chains (sibling rows distinct, so at most one 'else')"""
+    names = ["a", "b", "c", "d", "e", "f", "g", "h", "i", "j", "k", "l"]
+    rnd.shuffle(names)
+    rows = []
+    else_used = False
+
+    def body():
+        return [["apply %s" % rnd.choice("xyz"), None]] if rnd.chance(80) else []
+    for _ in range(rnd.randint(1, 3)):
+        rows.append(["if %s then" % names.pop(), body()])
+        for _ in range(rnd.randint(0, 1)):
+            rows.append(["elseif %s then" % names.pop(), body()])
+        if not else_used and rnd.chance(40):
+            else_used = True
+            rows.append(["else", body()])
+        if rnd.chance(25):
+            rows.append(["apply %s" % names.pop(), None])
+    return ["xpl route-filter %s" % rnd.choice("FGH"), rows]
+
+
+ALT_APPLY = "aruba.ap_env.apply"   # a shipped apply logic with its own wrapper: nothing before, 'write memory' after when committing
+
+
 def gen_deploy(rnd, ptree, depth=0):
     """deploy rules for some rows of this level (by full row text or head + '~'); nested rules only under block rows that got a rule"""
     rules = []
@@ -98,7 +122,7 @@ def gen_deploy(rnd, ptree, depth=0):
         if toks[0] in heads:
             continue
         heads.add(toks[0])
-        rules.append({"toks": toks, "timeout": rnd.choice([None, 5, 120]),
+        rules.append({"toks": toks, "timeout": rnd.choice([None, 5, 120]), "apply": ALT_APPLY if rnd.chance(30) else None,
                       "dialogs": [["Sure? [Y/N]:", "Y"]] if rnd.chance(40) else ([["/Cont.*/", "yes"], ["Again?", "N"]] if rnd.chance(20) else []),
                       "children": gen_deploy(rnd, ch, depth + 1) if ch else []})
     return rules
@@ -110,6 +134,8 @@ def deploy_lines(rules, ind=0):
         s = " " * ind + " ".join(r["toks"])
         if r["timeout"]:
             s += " %%timeout=%d" % r["timeout"]
+        if r.get("apply"):
+            s += " %apply_logic=" + r["apply"]
         out.append(s)
         for q, a in r["dialogs"]:
             out.append(" " * (ind + 4) + "dialog: %s ::: %s" % (q, a))
@@ -130,6 +156,10 @@ def _cases(draw):
         case.update({"kind": "make_patch", "rules": rules, "old": RL.plain(old), "new": RL.plain(RL.mutate(rnd, ctx, old))})
     else:
         pt = gen_synth(rnd)
+        if vendor in ("huawei", "h3c") and rnd.chance(35):
+            pt.insert(rnd.randint(0, len(pt)), gen_xpl(rnd))
+            seen = set()
+            pt = [x for x in pt if not (x[0] in seen or seen.add(x[0]))]
         case.update({"kind": "synthetic", "patch": pt, "deploy": gen_deploy(rnd, pt)})
     return case
 
@@ -172,6 +202,12 @@ def _provider():
     return _PROVIDER
 
 
+def _all_rules(deploy):
+    for r in deploy:
+        yield r
+        yield from _all_rules(r["children"])
+
+
 def _ref_rule(deploy, path):
     rules = deploy
     rule = None
@@ -185,7 +221,83 @@ def _ref_rule(deploy, path):
     return rule
 
 
+def _line_paths(lines):
+    """(depth, text) lines -> their paths"""
+    stack, out = [], []
+    for d, t in lines:
+        del stack[d:]
+        stack.append(t)
+        out.append(tuple(stack))
+    return out
+
+
+def _xpl_endif_diagnosis(got, want):
+    """Is the difference between the displayed lines and the command paths exactly the listed finding: an xpl route-filter shows a
+    second 'endif' (one after the 'else' branch, one closing the last if-chain), and the path-keyed command list keeps only the first?"""
+    gp = _line_paths(got)
+    seen, dedup, dropped = set(), [], []
+    for line, p in zip(got, gp):
+        if p in seen:
+            dropped.append(p)
+            continue
+        seen.add(p)
+        dedup.append(line)
+    if dedup != want or not dropped:
+        return False
+    if not all(p[-1] == "endif" and len(p) >= 2 and p[-2].startswith("xpl route-filter") for p in dropped):
+        return False
+    # every displayed endif is one the documented exit rule gives: after the 'else' branch, or closing the filter's last row
+    for i, p in enumerate(gp):
+        if p[-1] != "endif" or not (len(p) >= 2 and p[-2].startswith("xpl route-filter")):
+            continue
+        sibs = [q for q in gp if len(q) == len(p) and q[:-1] == p[:-1]]
+        idx = [j for j, q in enumerate(gp) if len(q) == len(p) and q[:-1] == p[:-1]].index(i)
+        prev = sibs[idx - 1][-1] if idx > 0 else None
+        nxt = sibs[idx + 1][-1] if idx + 1 < len(sibs) else None
+        if not (prev == "else" or (nxt == "end-filter" and prev is not None and prev.startswith(("if", "elseif")) and prev.endswith("then"))):
+            return False
+    return True
+
+
+def _parse_stream(cmds, want, keys, wrappers):
+    """The driver's list must be a sequence of sessions, each = wrapper-before + (>=1 consecutive shown commands governed by that
+    wrapper's apply logic) + wrapper-after, the shown commands in the displayed order.  keys[j] = set of wrapper names allowed for the
+    j-th shown command.  Returns the indices of the shown commands in cmds, or None."""
+    n, m = len(want), len(cmds)
+    lc = [(c[0], c[1]) for c in cmds]
+    dead = set()
+
+    def go(i, j, cur, took, acc):
+        st = (i, j, cur, took)
+        if st in dead:
+            return None
+        if cur is None:
+            if j == n:
+                return acc if i == m else None
+            for k in sorted(keys[j]):
+                b = [(0, x) for x in wrappers[k][0]]
+                if lc[i:i + len(b)] == b:
+                    r = go(i + len(b), j, k, False, acc)
+                    if r is not None:
+                        return r
+        else:
+            if j < n and cur in keys[j] and i < m and lc[i] == want[j]:
+                r = go(i + 1, j + 1, cur, True, acc + [i])
+                if r is not None:
+                    return r
+            if took:
+                a = [(0, x) for x in wrappers[cur][1]]
+                if lc[i:i + len(a)] == a:
+                    r = go(i + len(a), j, None, False, acc)
+                    if r is not None:
+                        return r
+        dead.add(st)
+        return None
+    return go(0, 0, None, False, [])
+
+
 def check(case):
+    from vf.core.runner import known_or_raise
     from annet.annlib.netdev.views.hardware import HardwareView
     from annet.deploy import apply_deploy_rulebook
     from vf.model import sut
@@ -220,7 +332,10 @@ def check(case):
         unit = f._indent  # the cisco-like formatters ignore the requested indent (constructor passes it as no_block_exit); depth is read in the unit actually used
         got = [((len(l) - len(l.lstrip(" "))) // len(unit), l.strip()) for l in lines]
         if got != [(d, c.strip()) for d, c in want]:
-            raise Violation("shown-vs-paths", f"{model}: the displayed patch {got!r} differs from the command paths {want!r}"[:700], det)
+            v = Violation("shown-vs-paths", f"{model}: the displayed patch {got!r} differs from the command paths {want!r}"[:700],
+                          dict(det, xpl_second_endif_after_else=_xpl_endif_diagnosis(got, [(d, c.strip()) for d, c in want])))
+            labels.append(known_or_raise(PID, v))
+            return labels   # the listed class is excluded from the remaining assertions of this case
     if real_vendor == "pc":
         return labels
     # (b) the command list handed to the deploy driver
@@ -235,6 +350,11 @@ def check(case):
                 res[(dc, df)] = [(c.level, c.cmd, c.timeout, [(q.question, q.answer, q.is_regexp) for q in (c.questions or [])]) for c in cl]
     finally:
         P.deploy_text = None
+    refs = [(_ref_rule(deploy, p) if deploy else None) for p in paths]
+    mixed = any(isinstance(r, dict) and r.get("apply") for r in refs) or \
+        (any(r == "undefined" for r in refs) and any(r.get("apply") for r in _all_rules(deploy)))
+    if mixed:
+        labels.append("mixed-apply-logic")
     for (dc, df), cmds in res.items():
         b, a = wrapper_ref(model, dc, df)
         if not paths:
@@ -242,21 +362,35 @@ def check(case):
                 raise Violation("stream-for-empty-patch", f"{model}: empty patch but commands {cmds!r}", det)
             continue
         n = len(cmds)
-        body = cmds[len(b):n - len(a)] if len(a) else cmds[len(b):]
-        gb = [c[1] for c in cmds[:len(b)]]
-        ga = [c[1] for c in cmds[n - len(a):]] if len(a) else []
-        if [(c[0], c[1]) for c in body] != want or gb != b or ga != a:
-            raise Violation("stream-differs", f"{model} commit={dc} finalize={df}: driver gets {[(c[0], c[1]) for c in cmds]!r}; expected wrapper "
-                            f"{b!r} + shown commands {want!r} + {a!r}"[:900], det)
-        allc = [c[1] for c in cmds[:len(b)]] + ga
+        if mixed:
+            # several apply logics: one session (wrapper) per run of commands of one logic; a command inside a block that no deploy
+            # rule matches may be governed by either (the property does not say)
+            wrappers = {"std": (b, a), "env": ([], ["write memory"] if dc else [])}
+            keys = [({"env"} if (isinstance(r, dict) and r.get("apply")) else {"std", "env"} if r == "undefined" else {"std"}) for r in refs]
+            idx = _parse_stream(cmds, want, keys, wrappers)
+            if idx is None:
+                raise Violation("stream-differs", f"{model} commit={dc} finalize={df}: driver gets {[(c[0], c[1]) for c in cmds]!r}: not the shown "
+                                f"commands {want!r} in order, each run wrapped by its apply logic's session {wrappers!r}"[:1100], det)
+            body = [cmds[i] for i in idx]
+            runs = [k for i, k in enumerate(keys) if len(k) == 1 and (i == 0 or keys[i - 1] != k)]
+            if len(runs) >= 3 and dc and df:
+                labels.append("alternating-sessions")
+            allc = []   # (every wrapper command was matched against the reference tables above)
+        else:
+            body = cmds[len(b):n - len(a)] if len(a) else cmds[len(b):]
+            gb = [c[1] for c in cmds[:len(b)]]
+            ga = [c[1] for c in cmds[n - len(a):]] if len(a) else []
+            if [(c[0], c[1]) for c in body] != want or gb != b or ga != a:
+                raise Violation("stream-differs", f"{model} commit={dc} finalize={df}: driver gets {[(c[0], c[1]) for c in cmds]!r}; expected wrapper "
+                                f"{b!r} + shown commands {want!r} + {a!r}"[:900], det)
+            allc = [c[1] for c in cmds[:len(b)]] + ga
         if not dc and any("commit" in c for c in allc):
             raise Violation("commit-when-disabled", f"{model}: commit sent although do_commit=False: {allc!r}", det)
         if not df and any(c.split(" ")[0] in ("save", "write", "copy") for c in allc):
             raise Violation("save-when-disabled", f"{model}: save sent although do_finalize=False: {allc!r}", det)
         # (c) per-command parameters
         if (dc, df) == (case["do_commit"], case["do_finalize"]):
-            for p, c in zip(paths, body):
-                r = _ref_rule(deploy, p) if deploy else None
+            for p, c, r in zip(paths, body, refs):
                 if r == "undefined":
                     labels.append("unmatched-intermediate-level")
                     continue
